@@ -11,92 +11,100 @@
    does not fix beyond ties (observations are compared as sets of row identities with their values). *)
 EXTENDS GeoFrameOps, SJoin
 
-CONSTANTS Kind, Elems, RKind, RElems, N, MaxOps
-VARIABLES rows, form, indexed, ordered, hist
+CONSTANTS Kind1, Elems1, Kind2, Elems2, RKind, RElems, N, MaxOps, Bias
+VARIABLES rows, form, indexed, ordered, active, hist
 
-vars == <<rows, form, indexed, ordered, hist>>
-ElemsOfRows(rs) == [i \in 1..Len(rs) |-> Elems[rs[i][2]]]
+vars == <<rows, form, indexed, ordered, active, hist>>
+(* a row is <<identity, element of the first geometry column, element of the second>>; `active` (1 or 2) is the geometry column every
+   spatial operation must use (C20); Kind / ElemOf are the kind and the element of a row in the active column *)
+Kind == IF active = 1 THEN Kind1 ELSE Kind2
+ElemOf(r) == IF active = 1 THEN Elems1[r[2]] ELSE Elems2[r[3]]
+ElemsOfRows(rs) == [i \in 1..Len(rs) |-> ElemOf(rs[i])]
 Ids(rs) == [i \in 1..Len(rs) |-> rs[i][1]]
 Log(op, a, b, val) == hist' = Append(hist, [op |-> op, a |-> a, b |-> b, val |-> val])
 NoVal == << >>
 
 (* ---- transformations ---- *)
 SliceRows(a, b) == /\ form = "pandas" /\ rows' = SubSeq(rows, a + 1, b) /\ indexed' = FALSE
-                   /\ Log("iloc", a, b, NoVal) /\ UNCHANGED form /\ ordered /\ UNCHANGED ordered
+                   /\ Log("iloc", a, b, NoVal) /\ UNCHANGED form /\ ordered /\ UNCHANGED <<ordered, active>>
 Derived == IF form = "dataset" THEN "dask" ELSE form      \* a row selection of a re-read dataset is no longer what is stored
 KeepIds(S) == /\ rows' = SelectSeq(rows, LAMBDA r : r[1] \in S) /\ indexed' = FALSE
-              /\ Log("filter", S, 0, NoVal) /\ form' = Derived /\ UNCHANGED ordered
+              /\ Log("filter", S, 0, NoVal) /\ form' = Derived /\ UNCHANGED <<ordered, active>>
 ReverseRows == /\ form = "pandas" /\ rows' = [i \in 1..Len(rows) |-> rows[Len(rows) + 1 - i]] /\ indexed' = FALSE
-               /\ Log("reverse", 0, 0, NoVal) /\ UNCHANGED form /\ ordered /\ UNCHANGED ordered
-BuildIndex(ps) == /\ form = "pandas" /\ ~indexed /\ indexed' = TRUE /\ Log("build_sindex", ps, 0, NoVal) /\ UNCHANGED <<rows, form>> /\ UNCHANGED ordered
+               /\ Log("reverse", 0, 0, NoVal) /\ UNCHANGED form /\ ordered /\ UNCHANGED <<ordered, active>>
+BuildIndex(ps) == /\ form = "pandas" /\ ~indexed /\ indexed' = TRUE /\ Log("build_sindex", ps, 0, NoVal) /\ UNCHANGED <<rows, form>> /\ UNCHANGED <<ordered, active>>
 ToDask(k) == /\ form = "pandas" /\ Len(rows) >= 1 /\ form' = "dask" /\ indexed' = FALSE
-             /\ Log("from_pandas", k, 0, NoVal) /\ UNCHANGED rows /\ ordered' = FALSE     \* from_pandas sorts by the index labels
-Compute == /\ form \in {"dask", "dataset"} /\ form' = "pandas" /\ Log("compute", 0, 0, NoVal) /\ UNCHANGED <<rows, indexed>> /\ UNCHANGED ordered
+             /\ Log("from_pandas", k, 0, NoVal) /\ UNCHANGED rows /\ ordered' = FALSE /\ UNCHANGED active     \* from_pandas sorts by the index labels
+Compute == /\ form \in {"dask", "dataset"} /\ form' = "pandas" /\ Log("compute", 0, 0, NoVal) /\ UNCHANGED <<rows, indexed>> /\ UNCHANGED <<ordered, active>>
 (* pack_partitions(k, p): same rows, Hilbert order (order not tracked: see header); needs at least two distinct keys when k > 1,
    so the model only packs into k = 1 .. (number of rows with pairwise different bounds centres) *)
-Pack(k) == /\ form = "dask" /\ Len(rows) >= 2 /\ Log("pack_partitions", k, 0, NoVal) /\ UNCHANGED <<rows, form, indexed>> /\ ordered' = FALSE                  \* Hilbert order, not fixed by the model beyond ties: positional operations wait for a sort
+Pack(k) == /\ form = "dask" /\ Len(rows) >= 2 /\ Log("pack_partitions", k, 0, NoVal) /\ UNCHANGED <<rows, form, indexed>> /\ ordered' = FALSE /\ UNCHANGED active                  \* Hilbert order, not fixed by the model beyond ties: positional operations wait for a sort
 ToParquet == /\ form \in {"pandas", "dask"} /\ Len(rows) >= 1
              /\ form' = IF form = "pandas" THEN "pandas" ELSE "dataset"
-             /\ Log("parquet_roundtrip", 0, 0, NoVal) /\ UNCHANGED <<rows, indexed>> /\ UNCHANGED ordered
+             /\ Log("parquet_roundtrip", 0, 0, NoVal) /\ UNCHANGED <<rows, indexed, ordered>>
+             /\ active' = 1                         \* a re-read frame starts with the first geometry column active (C20)
 PackToParquet(k) == /\ form = "dask" /\ Len(rows) >= 2 /\ form' = "dataset"
-                    /\ Log("pack_partitions_to_parquet", k, 0, NoVal) /\ UNCHANGED <<rows, indexed>> /\ ordered' = FALSE
+                    /\ Log("pack_partitions_to_parquet", k, 0, NoVal) /\ UNCHANGED <<rows, indexed>> /\ ordered' = FALSE /\ active' = 1
 
 (* more row-preserving / row-reordering transformations (C16 / C20: the frame stays a geo frame with the same rows) *)
 SortDesc == /\ form = "pandas" /\ rows' = SortSeq(rows, LAMBDA a, b : a[1] > b[1]) /\ indexed' = FALSE
-            /\ Log("sort_desc", 0, 0, NoVal) /\ UNCHANGED form /\ ordered' = TRUE
+            /\ Log("sort_desc", 0, 0, NoVal) /\ UNCHANGED form /\ ordered' = TRUE /\ UNCHANGED active
 Rotate(k) == /\ form = "pandas" /\ Len(rows) > k /\ k >= 1
              /\ rows' = SubSeq(rows, k + 1, Len(rows)) \o SubSeq(rows, 1, k) /\ indexed' = FALSE
-             /\ Log("concat_rotate", k, 0, NoVal) /\ UNCHANGED form /\ ordered /\ UNCHANGED ordered      \* pd.concat([obj.iloc[k:], obj.iloc[:k]])
+             /\ Log("concat_rotate", k, 0, NoVal) /\ UNCHANGED form /\ ordered /\ UNCHANGED <<ordered, active>>      \* pd.concat([obj.iloc[k:], obj.iloc[:k]])
 Same(op) == /\ (op \in {"copy", "pickle"} => form = "pandas") /\ (op \in {"persist", "repartition"} => form \in {"dask", "dataset"})
-            /\ Log(op, 0, 0, NoVal) /\ UNCHANGED <<rows, form, indexed>> /\ UNCHANGED ordered
+            /\ Log(op, 0, 0, NoVal) /\ UNCHANGED <<rows, form, indexed>> /\ UNCHANGED <<ordered, active>>
+SetGeometry == /\ form \in {"pandas", "dask"} /\ active' = 3 - active /\ indexed' = FALSE
+               /\ Log("set_geometry", 3 - active, 0, NoVal) /\ UNCHANGED <<rows, form, ordered>>
 (* cx as a transformation: continue with the selected rows (cx of cx, cx then pack, ...) *)
 CxSelect(key) ==
     /\ ~Unspecified(Kind, ElemsOfRows(rows), key)
     /\ LET sel == PCx(Kind, ElemsOfRows(rows), key) IN
        /\ Len(sel) >= 1
        /\ rows' = [j \in 1..Len(sel) |-> rows[sel[j]]]
-    /\ indexed' = FALSE /\ Log("cx_select", key, 0, NoVal) /\ form' = Derived /\ UNCHANGED ordered
+    /\ indexed' = FALSE /\ Log("cx_select", key, 0, NoVal) /\ form' = Derived /\ UNCHANGED <<ordered, active>>
 
 (* ---- observations: the value P requires, as a set of <<row id, value>> / a value ---- *)
 ObsCx(key) ==
     /\ ~Unspecified(Kind, ElemsOfRows(rows), key)
     /\ LET sel == PCx(Kind, ElemsOfRows(rows), key) IN
        Log("cx", key, 0, {rows[sel[j]][1] : j \in 1..Len(sel)})
-    /\ UNCHANGED <<rows, form, indexed>> /\ UNCHANGED ordered
-ObsTotalBounds == /\ Log("total_bounds", 0, 0, TotalBounds(ElemsOfRows(rows))) /\ UNCHANGED <<rows, form, indexed>> /\ UNCHANGED ordered
-ObsBounds == /\ Log("bounds", 0, 0, {<<rows[i][1], Bounds(Elems[rows[i][2]])>> : i \in 1..Len(rows)}) /\ UNCHANGED <<rows, form, indexed>> /\ UNCHANGED ordered
+    /\ UNCHANGED <<rows, form, indexed>> /\ UNCHANGED <<ordered, active>>
+ObsTotalBounds == /\ Log("total_bounds", 0, 0, TotalBounds(ElemsOfRows(rows))) /\ UNCHANGED <<rows, form, indexed>> /\ UNCHANGED <<ordered, active>>
+ObsBounds == /\ Log("bounds", 0, 0, {<<rows[i][1], Bounds(ElemOf(rows[i]))>> : i \in 1..Len(rows)}) /\ UNCHANGED <<rows, form, indexed>> /\ UNCHANGED <<ordered, active>>
 ObsSJoin(how) ==
     /\ Kind = "point" /\ form \in {"pandas", "dask"} /\ ~Undecided(ElemsOfRows(rows), RKind, RElems)
     /\ LET ps == PairSet(how, Len(rows), Len(RElems), Hit(ElemsOfRows(rows), RKind, RElems)) IN
        Log("sjoin", how, 0, {<<IF p[1] = 0 THEN 0 ELSE rows[p[1]][1], p[2]>> : p \in ps})
-    /\ UNCHANGED <<rows, form, indexed>> /\ UNCHANGED ordered
+    /\ UNCHANGED <<rows, form, indexed>> /\ UNCHANGED <<ordered, active>>
 (* C01 / C02: intersects_bounds per row; C03: the spatial index answers with the rows whose bounds overlap the box;
    C14: twice the area and the squared segment lengths (the replay sums the roots); C12: a bounds= re-read of a dataset
    returns whole partitions that contain at least the intersecting rows *)
-ObsHits(B) == /\ TRUE = (\A i \in 1..Len(rows) : BoxHit(Kind, Elems[rows[i][2]], B) # "U")
-              /\ Log("intersects_bounds", B, 0, {rows[i][1] : i \in {j \in 1..Len(rows) : BoxHit(Kind, Elems[rows[j][2]], B) = "T"}})
-              /\ UNCHANGED <<rows, form, indexed>> /\ UNCHANGED ordered
+ObsHits(B) == /\ TRUE = (\A i \in 1..Len(rows) : BoxHit(Kind, ElemOf(rows[i]), B) # "U")
+              /\ Log("intersects_bounds", B, 0, {rows[i][1] : i \in {j \in 1..Len(rows) : BoxHit(Kind, ElemOf(rows[j]), B) = "T"}})
+              /\ UNCHANGED <<rows, form, indexed>> /\ UNCHANGED <<ordered, active>>
 ObsIndex(B) == /\ form = "pandas" /\ Len(rows) >= 1
-               /\ LET bs == [i \in 1..Len(rows) |-> Bounds(Elems[rows[i][2]])] IN
+               /\ LET bs == [i \in 1..Len(rows) |-> Bounds(ElemOf(rows[i]))] IN
                   Log("sindex_intersects", B, 0, {rows[i + 1][1] : i \in BruteIntersects(bs, B)})
-               /\ UNCHANGED <<rows, form, indexed>> /\ UNCHANGED ordered
+               /\ UNCHANGED <<rows, form, indexed>> /\ UNCHANGED <<ordered, active>>
 (* (guards are written `TRUE = (...)` so that TLC evaluates them as values: a disjunction at action level is split into branches and
    its later disjuncts are evaluated even when an earlier one holds) *)
-ObsMeasure == /\ TRUE = (\A i \in 1..Len(rows) : Elems[rows[i][2]].null \/ Kind \notin PolyKinds \/ RingsClosed(Elems[rows[i][2]].g))
-              /\ Log("measure", 0, 0, {<<rows[i][1], Area2(Kind, Elems[rows[i][2]]), SqLens(Kind, Elems[rows[i][2]])>> :
-                                        i \in {j \in 1..Len(rows) : ~Elems[rows[j][2]].null}})
-              /\ UNCHANGED <<rows, form, indexed>> /\ UNCHANGED ordered
+ObsMeasure == /\ TRUE = (\A i \in 1..Len(rows) : ElemOf(rows[i]).null \/ Kind \notin PolyKinds \/ RingsClosed(ElemOf(rows[i]).g))
+              /\ Log("measure", 0, 0, {<<rows[i][1], Area2(Kind, ElemOf(rows[i])), SqLens(Kind, ElemOf(rows[i]))>> :
+                                        i \in {j \in 1..Len(rows) : ~ElemOf(rows[j]).null}})
+              /\ UNCHANGED <<rows, form, indexed>> /\ UNCHANGED <<ordered, active>>
 ObsReadBounds(B) == /\ form = "dataset"
-                    /\ TRUE = (\A i \in 1..Len(rows) : BoxHit(Kind, Elems[rows[i][2]], B) # "U")
-                    /\ Log("read_bounds", B, 0, {rows[i][1] : i \in {j \in 1..Len(rows) : BoxHit(Kind, Elems[rows[j][2]], B) = "T"}})
-                    /\ UNCHANGED <<rows, form, indexed>> /\ UNCHANGED ordered
-ObsIds == /\ Log("ids", 0, 0, {rows[i][1] : i \in 1..Len(rows)}) /\ UNCHANGED <<rows, form, indexed>> /\ UNCHANGED ordered
+                    /\ TRUE = (\A i \in 1..Len(rows) : BoxHit(Kind, ElemOf(rows[i]), B) # "U")
+                    /\ Log("read_bounds", B, 0, {rows[i][1] : i \in {j \in 1..Len(rows) : BoxHit(Kind, ElemOf(rows[j]), B) = "T"}})
+                    /\ UNCHANGED <<rows, form, indexed>> /\ UNCHANGED <<ordered, active>>
+ObsIds == /\ Log("ids", 0, 0, {rows[i][1] : i \in 1..Len(rows)}) /\ UNCHANGED <<rows, form, indexed>> /\ UNCHANGED <<ordered, active>>
 
 Keys == { << <<OMIT, OMIT, 0>>, <<OMIT, OMIT, 0>> >>, << <<1, 3, 0>>, <<1, 3, 0>> >>, << <<3, 1, 0>>, <<OMIT, 3, 0>> >>,
           << <<-1, 1, 0>>, <<-1, 5, 0>> >>, << <<3, 5, 0>>, <<0, 4, 0>> >>, << <<5, OMIT, 0>>, <<OMIT, OMIT, 0>> >> }
 Boxes == { <<1, 1, 3, 3>>, <<0, 0, 4, 4>>, <<3, 0, 5, 4>>, <<-1, -1, 1, 5>>, <<2, 1, 3, 2>> }
-Init == /\ \E rs \in [1..N -> 1..Len(Elems)] : rows = [i \in 1..N |-> <<i, rs[i]>>]
-        /\ form = "pandas" /\ indexed = FALSE /\ ordered = TRUE /\ hist = <<>>
+Init == /\ \E rs \in [1..N -> 1..Len(Elems1)], sh \in 0..(Len(Elems2) - 1) :
+              rows = [i \in 1..N |-> <<i, rs[i], ((i + sh) % Len(Elems2)) + 1>>]
+        /\ active = 1 /\ form = "pandas" /\ indexed = FALSE /\ ordered = TRUE /\ hist = <<>>
 Next == /\ Len(hist) < MaxOps
         /\ \/ \E a \in 0..Len(rows), b \in 0..Len(rows) : a < b /\ (a > 0 \/ b < Len(rows)) /\ SliceRows(a, b)
            \/ \E m \in {2, 3} : KeepIds({i \in 1..N : i % m # 0})
@@ -107,6 +115,7 @@ Next == /\ Len(hist) < MaxOps
            \/ \E k \in {1, 2} : Pack(k)
            \/ ToParquet
            \/ \E k \in {1, 3} : PackToParquet(k)
+           \/ SetGeometry
            \/ SortDesc \/ \E k \in {1, 2} : Rotate(k)
            \/ \E op \in {"copy", "pickle", "persist", "repartition"} : Same(op)
            \/ \E key \in Keys : CxSelect(key)
@@ -115,7 +124,10 @@ Next == /\ Len(hist) < MaxOps
            \/ \E key \in Keys : ObsCx(key)
            \/ ObsTotalBounds \/ ObsBounds \/ ObsIds
            \/ \E how \in {"inner", "left"} : ObsSJoin(how)
-Spec == Init /\ [][Next]_vars
+(* random simulation picks successors uniformly, so the many-parameter pandas observations dominate; Bias = "dask" starts every
+   behaviour with from_pandas so that the Dask / parquet actions are reached early (same state space, different sampling) *)
+NextB == IF Bias = "dask" /\ hist = <<>> THEN \E k \in {1, 2, 3} : ToDask(k) ELSE Next
+Spec == Init /\ [][NextB]_vars
 (* P-level sanity checked on every state: row identities stay unique and are never invented *)
 RowsSane == /\ \A i, j \in 1..Len(rows) : i # j => rows[i][1] # rows[j][1]
             /\ \A i \in 1..Len(rows) : rows[i][1] \in 1..N
